@@ -6,7 +6,8 @@ LEVEL = ("Variant-correspondence level only: From<serde_json::Value> (owned and 
          "the same-named one; Serialize maps Null/Bool/Number/String/Array/Object to serialize_unit/bool/Number::serialize/"
          "serialize_str/sequence/map-over-all-entries; the Deserialize visitor maps bool/i64/u64/f64/str/none/unit/seq/map to "
          "the matching variant (f64 via Number::from_f64 or Null); numeric casts in the conversion/equality helpers are "
-         "enumerated. The round-trip equalities themselves, float formatting and unicode escaping are NOT decided.")
+         "enumerated. The round-trip equalities themselves, float formatting and unicode escaping are NOT decided."
+         " Added: numbers are serialised only through Number::serialize; scalar visitors pass the visited value through unchanged.")
 
 VARS = ["Null", "Bool", "Number", "String", "Array", "Object"]
 
